@@ -575,27 +575,11 @@ impl WalManager {
     }
 
     fn truncate_old_logs(&self) -> Result<()> {
-        let Some(checkpoint) = *self.checkpoint_epoch.lock() else {
-            return Ok(());
-        };
-
-        // Keep logs that might still be needed
-        // For now, keep the two most recent logs after checkpoint
-        let files = self.log_files()?;
-        let current_seq = self.current_sequence.load(Ordering::Relaxed);
-
-        for file in files {
-            if let Some(seq) = Self::sequence_from_path(&file) {
-                // Keep the last 2 log files before current
-                if seq + 2 < current_seq {
-                    // Only delete if we have a checkpoint after this log
-                    if checkpoint.as_u64() > seq {
-                        let _ = fs::remove_file(&file);
-                    }
-                }
-            }
-        }
-
+        // A checkpoint marks a position in the log; it does not write the data
+        // anywhere else. Opening a database rebuilds the store by replaying every
+        // log file, so none of them can be dropped here. (The rule that used to be
+        // here compared the checkpoint *epoch* with a file *sequence number* and
+        // removed files whose records existed nowhere else.)
         Ok(())
     }
 }
